@@ -1,6 +1,7 @@
 """C04 - The screen shown is always the top of an honest stack."""
 from harness.props.session import *
 from harness.gen.sessions import gen_case, SidCounter
+from harness.props import objects
 
 THEOREM_NOTE = ("Props/C04.lean: every transition either leaves the screen stack unchanged or is one of the stack operations and changes it exactly as the ideal stack operation "
                 "does (replace keeps the modal flag, schedule inserts at the bottom); entries beneath the top keep their order; a screen is drawn only while it is the top of "
@@ -9,7 +10,8 @@ THEOREM_NOTE = ("Props/C04.lean: every transition either leaves the screen stack
 ASSUMPTIONS = ASSUME_SESSION
 RULE = ("app and tame sessions: random stack operations (schedule / push / push-modal / replace / close / redraw) issued from every callback kind over 1..4 screens with modal "
         "nesting, 0..30 typed lines; oracle: between two consecutive observations the stack changes by at most one ideal-stack operation, each API operation has its ideal "
-        "effect, every drawn/prompted screen is the top of the stack, the closed callback is for the popped top; non-trivial = >= 3 stack changes")
+        "effect, every drawn/prompted screen is the top of the stack, the closed callback is for the popped top; non-trivial = >= 3 stack changes"
+        " Object level: the real ScreenStack class under arbitrary append / add_first / pop / size / empty / dump_stack sequences compared with Model/Objects.lean; oracle: an ideal list.")
 
 
 def generate(rnd, tier):
@@ -20,7 +22,8 @@ def generate(rnd, tier):
         # an application that starts by pushing a screen and schedules others afterwards (before run() or later): scheduling puts a screen at the bottom even then
         if rnd.random() < 0.15 and c["screens"]:
             c["init"] = [["push", rnd.randrange(len(c["screens"])), rnd.choice([None, 1])]] + [a for a in c["init"]]
-    return [with_cc(c) for c in cases]
+    # the ScreenStack class on its own, driven by arbitrary call sequences (Model/Objects.lean, Props/C04b.lean)
+    return [with_cc(c) for c in cases] + objects.gen_sstack(rnd, 500 if tier == "quick" else 6000)
 
 
 def monitor(case, obs):
@@ -95,3 +98,7 @@ def nontrivial(case, obs):
             if prev is not None and ctx["stack"] != prev: n += 1
             prev = ctx["stack"]
     return n >= 3
+
+
+LEAN_MODULES = ["C04"]  # TODO C04b
+objects.install(globals(), ("sstack",))
